@@ -4,8 +4,8 @@ package engines
 // serialising schedule controller of harness/sched (a separately built binary, one process per case, so that a
 // goroutine parked for ever by a real hang dies with its process).
 //
-//	pipe seed=… feed=c:HEX,z:WxH,e,… exp=… expat=… [feed2=… exp2=…] cons=poll|chan:N stop=K pend=0|1 post=PxN[w]
-//	     draw=M w=name:weight,… ; op ; op ; …
+//	pipe seed=… feed=c:HEX,z:WxH,e,… exp=… expat=… [feed2=… exp2=…] [feedm=… expm=…] cons=poll|chan:N stop=K pend=0|1
+//	     post=PxN[w] [postat=E] [rzs=WxH] draw=M w=name:weight,… ; op ; op ; …
 //
 // header: the feeder's steps (c: inject a chunk, z: resize the tty and notify, e: make the next Read fail), the
 // events the injected bytes stand for (exp, written by the generator from the items it chose, with expat[i] = the
@@ -13,7 +13,13 @@ package engines
 // K events, optionally asking HasPendingEvent first), P posting goroutines with N events each, a drawing goroutine,
 // scheduling weights.  ops = the director's script: `wait stall` | `wait fill E K` (eventQ/keychan fill level) |
 // `wait steps N` | `unpause` | `check` (steady-state exactness) | `suspend` | `resume` | `more` (inject feed2) |
-// `check2` (delivery works again after Resume) | `fini` (always appended; followed by the inertness checks).
+// `check2` (delivery works again after Resume) | `resize W H` (size change + notification at this point of the script) |
+// `mid` (inject feedm: input arriving between Suspend and Resume; whether it is delivered after Resume is recorded as a
+// tag, never demanded — the property only says delivery works AGAIN) | `fini` (always appended; followed by the
+// inertness checks).  postat=E: the posters start once eventQ holds E events (PostEvent at capacity-1 / capacity from
+// several goroutines); rzs=WxH: a size change + notification while a Suspend call is in progress.
+// `free` releases every goroutine from the controller for the rest of the case (real Go scheduling; the trace ends there),
+// `sleep MS` (free running only), `freecheck` (free running only: every injected event arrives, exactly once, in order).
 //
 // Observation: `ok` (the Lean driver answers `ok` for a well-formed line); a controller problem is printed as
 // `ERROR …` and therefore shows up as a correspondence break, never as a finding.  The trace of schedule points is
@@ -475,6 +481,71 @@ func genPipeOne(r *h.Rand, kind int) string {
 		}
 		ops += " ; unpause ; resume ; more ; check2 ; fini"
 		return hdr(steps, exp, expat, fmt.Sprintf("feed2=%s exp2=%s cons=%s %s %s draw=%d", ppJoin(steps2), ppJoin(exp2), ppCons(r), stop, post(), r.Intn(2))) + ops
+	case 5: // PostEvent from several goroutines exactly at capacity-1 / capacity: nil iff enqueued, ErrEventQFull iff not
+		const qcap = 10
+		np, per := r.Range(2, 4), r.Range(2, 6)
+		var items []ppItem
+		extra := ""
+		if r.Chance(50) {
+			// the posters alone fill the queue (consumer paused from the start): the posts at 8, 9 get nil, from 10 on ErrEventQFull
+			items = ppItems(r, r.Range(0, 3), false, 0)
+			if np*per <= qcap {
+				per = qcap/np + 2
+			}
+			extra = fmt.Sprintf("cons=%s stop=0 post=%dx%d draw=0", ppCons(r), np, per)
+		} else {
+			// input fills the queue up to cap-2 / cap-1 / cap, then the posters are let go and compete with scanInput
+			items = ppItems(r, r.Range(12, 25), false, 0)
+			extra = fmt.Sprintf("cons=%s stop=%d post=%dx%d postat=%d draw=0", ppCons(r), r.Range(0, 2), np, per, qcap-r.Intn(3))
+		}
+		steps, exp, expat := ppFeed(r, items, 2, 0, 0, -1)
+		return hdr(steps, exp, expat, extra) + " ; wait stall ; unpause ; check ; fini"
+	case 6: // a resize notification while the event queue is exactly full (or one below / blocked above) and nobody polls
+		const qcap = 10
+		k := r.Range(0, 4)
+		cons, absorbed := "poll", k
+		if r.Chance(35) {
+			cn := r.Range(1, 3)
+			cons = fmt.Sprintf("chan:%d", cn)
+			absorbed = k + cn + 1 // delivered + in the channel + the one ChannelEvents holds
+		}
+		n := absorbed + qcap + []int{0, 0, 0, 0, -1, 1, 2}[r.Intn(7)]
+		items := ppItems(r, n, false, 0)
+		steps, exp, expat := ppFeed(r, items, 2, 0, 0, -1)
+		ops := fmt.Sprintf(" ; wait stall ; resize %d %d", 90+r.Intn(9), 30+r.Intn(5))
+		if r.Chance(30) {
+			ops += fmt.Sprintf(" ; resize %d %d", 100+r.Intn(9), 40+r.Intn(5))
+		}
+		ops += " ; wait stall ; unpause ; check ; fini"
+		return hdr(steps, exp, expat, fmt.Sprintf("cons=%s stop=%d post=0 draw=0", cons, k)) + ops
+	case 7: // Suspend with a resize notification while the call is in progress and input arriving while suspended
+		items := ppItems(r, r.Range(8, 40), false, 0)
+		steps, exp, expat := ppFeed(r, items, 2, 0, r.Intn(2), -1)
+		itemsM := ppItems(r, r.Range(1, 8), false, 40)
+		stepsM, expM, _ := ppFeed(r, itemsM, 2, 0, 0, -1)
+		items2 := ppItems(r, r.Range(3, 12), false, 70)
+		steps2, exp2, _ := ppFeed(r, items2, 2, 0, 0, -1)
+		steps2 = append(steps2, fmt.Sprintf("z:%dx%d", 100+r.Intn(20), 40+r.Intn(5)))
+		e, k := fillTarget()
+		stop := fmt.Sprintf("stop=%d", r.Range(0, 4))
+		if r.Chance(40) {
+			stop = "stop=-1"
+		}
+		rzs := ""
+		if r.Chance(70) {
+			rzs = fmt.Sprintf(" rzs=%dx%d", 85+r.Intn(10), 27+r.Intn(8))
+		}
+		ops := fmt.Sprintf(" ; wait fill %d %d ; suspend ; mid ; unpause ; resume ; more ; check2 ; fini", e, k)
+		return hdr(steps, exp, expat, fmt.Sprintf("feed2=%s exp2=%s feedm=%s expm=%s cons=%s %s %s%s draw=%d", ppJoin(steps2), ppJoin(exp2), ppJoin(stepsM), ppJoin(expM), ppCons(r), stop, post(), rzs, r.Intn(2))) + ops
+	case 8: // free running (no serialising controller): single-byte input, a consumer that stops for a while, posters
+		items := ppItems(r, r.Range(30, 150), false, 0)
+		steps, exp, expat := ppFeed(r, items, 3, 0, 0, -1)
+		ps := "post=0"
+		if r.Chance(50) {
+			ps = fmt.Sprintf("post=%dx%d", r.Range(1, 4), r.Range(2, 8))
+		}
+		return hdr(steps, exp, expat, fmt.Sprintf("cons=%s stop=%d %s draw=0", ppCons(r), r.Range(0, 12), ps)) +
+			fmt.Sprintf(" ; free ; sleep %d ; unpause ; freecheck ; fini", r.Range(5, 40))
 	default: // a read error somewhere, then steady check or a shutdown at a fill level
 		items := ppItems(r, r.Range(5, 40), false, 0)
 		nchunksGuess := len(items)/2 + 1
@@ -499,7 +570,7 @@ func genPipe(g *h.Gen) {
 	n := g.N(400, 3000)
 	// directed cases first: the two shutdown situations the design names, at every fill level of the event queue
 	for i := 0; i < n; i++ {
-		kind := []int{0, 1, 2, 3, 2, 3, 0, 4}[i%8]
+		kind := []int{0, 1, 2, 3, 2, 3, 0, 4, 5, 6, 7, 8}[i%12]
 		g.Emit("%s", genPipeOne(g.R, kind))
 	}
 	ppLines = append(ppLines, g.Lines...)
